@@ -3,7 +3,7 @@
 # /repo (PENMAN_REPO), never on /repo itself; one line per seed: caught / caught(no-input) / MISSED
 W=${1:-/tmp/seedrun}
 cd /verif
-for d in seeded/*/; do
+for d in ${SEEDS:-seeded/*/}; do
   NAME=$(basename $d)
   P=$(python3 -c "import json;print(json.load(open('$d/meta.json'))['property'])")
   git -C $W checkout -q -- .
